@@ -15,7 +15,8 @@ All theorems: ∀ sizes, ∀ indices, ∀ bit lists, ∀ tables of tokens. Model
 `QV.Model.DataLoad` (tokenizer, `np.loadtxt` shape logic, `loadData`, `loadDataDM`, `extractRefbasis`);
 all executed against the code by the C19 correspondence check (`harness/c19.py`, ops `c19.*`).
 Specification side: `Nat.testBit`, Mathlib `∑`, `finProdFinEquiv` (the row-major flattening of a
-Kronecker product), `List.Sublist`, `List.finRange`-indexed filters, and the table printer `printTable`.
+Kronecker product), `List.Sublist`, `List.finRange`-indexed filters, the table printer `printTable`, and the
+writer-side predicates `GoodTok` / `GoodRow` / `BigTable` (`QV/Lemmas/DataLoad.lean`).
 -/
 import Mathlib.Algebra.BigOperators.Fin
 import Mathlib.Logic.Equiv.Fin.Basic
